@@ -100,6 +100,12 @@ CLAIMED = {
         text='PARTIAL. coq/props/C11.v proves the deterministic half: positions_with_ids of the mirror image on the other strand = renumbered labels; pairing commutes with renumbering under the no-tie hypothesis (which holds on a lattice with 2d < step); scoring, factory, chain, conflict step, resolver, Aligner.align, Row.create (same reference span and confidence, start/end exchanged) and HitEnum commute with any injective renumbering; '
              'C11_align_lattice quantifies over all lattice inputs and ANY seed peaks. NOT provable here: that q on + and mirror(q) on - receive the same seeds (bit-vector reversal, FFT, find_peaks, top-N) — exercised by the end-to-end oracle on lattice data sets (separate mode), with the failing stage named if it ever differs.',
         note=NOTE + 'Seeding numerics outside the model.', design='6 (C11), 10.4', technique='Coq proof (renumbering commutes with every stage) + pipeline correspondence on mirrored pairs + end-to-end mirror oracle'),
+    'C02': dict(
+        text='Theorems in coq/props/C02.v over row_create / positions_with_ids (with label-number offset) / unaligned_fragments / trim / the writer model: RefStartPos/RefEndPos = coordinates of the first/last listed reference label; QryStartPos/QryEndPos = offsets of the outermost listed query labels '
+             'from the first label on + and from the last label on - with the stated order; QryLen = last-first+1 of the query as read (also for fragments), RefLen = truncated end marker; ids of the input maps; XmapEntryID of the k-th line is k; Orientation +/-; second-pass label numbers are whole-query numbers on both strands (prefix and suffix fragments); whole record text = spec. '
+             'Tie: real Aligner.align rows, real writer byte-wise, getUnalignedFragments vs model, captured candidates of real runs, four-mode end-to-end text oracle with independent CMAP/XMAP parsers (incl. one data set with arbitrary one-decimal coordinates).',
+        note=NOTE + 'That listed pairs consist of getPositionsWithSiteIds labels is a hypothesis of the record theorems (justified by C12_within; evaluated by a boolean checker on every model row).', design='6 (C02)',
+        technique='Coq proof + differential correspondence (rows, writer, fragments, captured candidates) + end-to-end text oracle'),
 }
 PENDING_REASON = 'check not built yet in this round (planned: DESIGN.md section 6); will be claimed once its model, theorems and correspondence run'
 
